@@ -88,10 +88,20 @@ def search(res, tier, seed, deep=False):
                     report("ssr-reorders", dict(seed=seed, round=rnd), None, "SSR randomisation of zeros reordered values")
             # ISIMIP: step 4 randomisation and step 6 for every variable's settings
             from ibicus.debias import ISIMIP
-            for var, lo, hi in (("hurs", 0, 100), ("pr", 0, 5e-4), ("prsnratio", 0, 1), ("psl", 9e4, 1.1e5), ("rlds", 100, 500), ("rsds", 0, 1),
-                                ("sfcwind", 0, 20), ("tas", 250, 310), ("tasrange", 0, 25), ("tasskew", 0, 1)):
-                d = ISIMIP.from_variable(var)
-                n1, n2, n3 = r.randint(60, 150), r.randint(60, 150), r.randint(60, 150)
+            ISIMIP_VARS = [("hurs", 0, 100, {}), ("pr", 0, 5e-4, {}), ("prsnratio", 0, 1, {}), ("psl", 9e4, 1.1e5, {}), ("rlds", 100, 500, {}), ("rsds", 0, 1, {}),
+                           ("sfcwind", 0, 20, {}), ("tas", 250, 310, {}), ("tasrange", 0, 25, {}), ("tasskew", 0, 1, {}),
+                           # non-default but valid settings: threshold on the bound itself (calm days stored as exact zeros), the other
+                           # quantile-mapping branch
+                           ("sfcwind", 0, 20, dict(lower_threshold=0.0)), ("tasrange", 0, 25, dict(lower_threshold=0.0)),
+                           # (event_likelihood_adjustment=True is left out: Lange 2019 eq. 10-14 add a clipped difference of log-odds,
+                           #  L_obs_hist + clip(L_cm_future - L_cm_hist), which is not monotone in the rank by construction of the method)
+                           ("sfcwind", 0, 20, dict(nonparametric_qm=True)), ("hurs", 0, 100, dict(nonparametric_qm=False))]
+            # (threshold on the bound: bell-shaped data with calm days as exact zeros, several samples: whether the
+            #  distribution fit matters there depends on the sample)
+            for var, lo, hi, over, bell in [v + (False,) for v in ISIMIP_VARS] + [v + (True,) for v in ISIMIP_VARS if v[3].get("lower_threshold") == 0.0] * 6:
+                d = ISIMIP.from_variable(var, **over)
+                big = bool(over) and r.random() < 0.5          # samples of a few thousand values now and then
+                n1, n2, n3 = (r.randint(1500, 2500), r.randint(1500, 2500), r.randint(1500, 2500)) if big else (r.randint(60, 150), r.randint(60, 150), r.randint(60, 150))
                 def mk(n, sh):
                     x = lo + (hi - lo) * np.clip(rs.beta(2, 3, n) + sh, 0, 1)
                     if d.has_lower_threshold:
@@ -104,19 +114,22 @@ def search(res, tier, seed, deep=False):
                         x[k] = d.upper_bound - rs.rand(k.sum()) * (d.upper_bound - d.upper_threshold)
                     return x
                 oh, ch, cf = mk(n1, 0), mk(n2, 0.1), mk(n3, 0.15)
+                if bell:
+                    sc = hi / 20.0
+                    oh, ch, cf = (np.maximum(rs.normal(mu * sc, sd * sc, m), 0.0) for m, mu, sd in ((n1, 3, 2.5), (n2, 5, 3), (n3, 5.5, 3)))
                 np.random.seed(rnd)
                 a, b, c = d.step4(oh.copy(), ch.copy(), cf.copy())
-                res.case(("isimip-step4", var))
+                res.case(("isimip-step4", var, str(over)))
                 if not (nondecreasing_in_input(oh, a, 0.0) and nondecreasing_in_input(ch, b, 0.0) and nondecreasing_in_input(cf, c, 0.0)):
-                    report("step4-reorders:" + var, dict(variable=var, seed=seed, round=rnd), None, "ISIMIP step 4 randomisation reordered values")
+                    report("step4-reorders:" + var, dict(variable=var, options=str(over), seed=seed, round=rnd), None, "ISIMIP step 4 randomisation reordered values")
                 try:
                     of = d.step5(a, b, c)
                     out = d.step6(a, of, b, c)
                 except Exception as e:
-                    report("step6-exception:" + var, dict(variable=var, seed=seed, round=rnd), repr(e)[:200], "ISIMIP step 5/6 raised"); continue
-                res.case(("isimip-step6", var))
+                    report("step6-exception:" + var, dict(variable=var, options=str(over), seed=seed, round=rnd), repr(e)[:200], "ISIMIP step 5/6 raised"); continue
+                res.case(("isimip-step6", var, str(over), big, bell))
                 if not nondecreasing_in_input(c, out, 1e-9 * (1 + np.max(np.abs(out)))):
-                    report("not-monotone:ISIMIP:" + var, dict(variable=var, seed=seed, round=rnd), None, "ISIMIP step 6 is not rank preserving")
+                    report("not-monotone:ISIMIP:" + var, dict(variable=var, options=str(over), n=[n1, n2, n3], bell_shaped=bell, seed=seed, round=rnd), None, "ISIMIP step 6 is not rank preserving")
 
 def k16(res, tier, seed, tag="k16"):
     """K16: hand model Model/IsimipStep4.v vs ISIMIP._step4_randomize_values_between_{lower,upper}_threshold_and_bound with the
